@@ -79,6 +79,9 @@ fn main() {
             let mut r = Rng::new(seed);
             let mut st = exec::St::new();
             let mut out = vec![];
+            // the ambient thread mode: drivers that do not set the mode themselves run under a seeded, mostly non-default
+            // mode (operations defined without reference to the mode must not depend on it)
+            run_call(json!({"ev": "set", "t": 1, "mode": exec::MODES[(seed % 8) as usize].1}), &mut st, &mut out);
             for c in suites::suite(suite, &mut r, 1, n) {
                 run_call(c, &mut st, &mut out);
                 if out.len() > 4096 {
